@@ -30,7 +30,8 @@ RULE = ('histories on the real Bus with raw scripted clients (real handshake and
         'requester on an owned name) or a release/disconnect with a non-empty queue; distinct = distinct history JSON. Every second '
         'raw peer is big-endian; bus calls carry no SENDER, the true one or another client\'s by turns, and come in the four '
         'header spellings of refcodec.encode_variant; every third peer never says Hello (the bus serves it all the same); '
-        'one request in seven is sent fire-and-forget (NO_REPLY_EXPECTED): it counts all the same.')
+        'one request in seven is sent fire-and-forget (NO_REPLY_EXPECTED): it counts all the same. Peers end with ConnectionDone, '
+        'ConnectionLost or ConnectionAborted by turns.')
 ASSUMPTIONS = ['whether a replaced owner is dropped or re-queued is not stated: the model adopts what the next '
                'ListQueuedOwners shows',
                'a queued (non-owner) client releasing the name is answered RELEASED, as the specification defines '
